@@ -358,8 +358,18 @@ func (g *gen) genFunc(typ *types.Signature) error {
 		p.P("}")
 		p.Out()
 		p.P("}")
-		p.P("%s := f(%s)", strings.Join(resVars, ", "), strings.Join(paramVars, ", "))
-		if len(resTypes) == 1 {
+		if len(resTypes) == 0 {
+			p.P("f(%s)", strings.Join(paramVars, ", "))
+		} else {
+			p.P("%s := f(%s)", strings.Join(resVars, ", "), strings.Join(paramVars, ", "))
+		}
+		if len(resTypes) == 0 {
+			if len(paramTypes) == 1 {
+				p.P("m[h] = append(m[h], mem{%s})", paramVars[0])
+			} else {
+				p.P("m[h] = append(m[h], mem{in})")
+			}
+		} else if len(resTypes) == 1 {
 			if len(paramTypes) == 1 {
 				p.P("m[h] = append(m[h], mem{%s, %s})", paramVars[0], resVars[0])
 			} else {
